@@ -9,8 +9,8 @@ from harness.memrun import TICK
 ID = "C06"
 RUN_MODULE = "Model.Lock Run.C06"
 EXPLAIN = "explain"
-RULE = ("2-4 real asyncio tasks entering sections guarded by cache.lock / @cache.locked on a coroutine function / @cache.locked on an async generator / backend.lock on 1-2 keys (the second key lives on a second backend the facade routes to by prefix), lock ttl 1-2 s, section "
-        "durations 0-3 x ttl (some overstay), wait=True (check_interval 0 or 0.125 s) and wait=False, plus unlock calls with a foreign token; "
+RULE = ("2-4 real asyncio tasks entering sections guarded by cache.lock / @cache.locked on a coroutine function / @cache.locked on an async generator / backend.lock on 1-2 keys (the second key lives on a second backend the facade routes to by prefix), lock ttl 1-2 s (spelled as float / int / timedelta / string through the facade), section "
+        "durations 0-3 x ttl (some overstay; one body in five ends with an exception), wait=True (check_interval 0 or 0.125 s) and wait=False, plus unlock calls with a foreign token; "
         "every set_lock / unlock / ping of the Memory instance is gated, the schedule (which parked task runs next, when the clock advances to "
         "the next timer, which designated task gets cancelled) is a seeded list of choices - all schedules of length <= 7 for two tasks in the "
         "thorough tier; purge task on (0.25 s) or off. Observed: every lock command with its result and the start and end of every guarded body, in execution order, and per task how it ended (entered, LockedError, cancelled) with its number of attempts. non-trivial: at least "
@@ -25,6 +25,10 @@ EXHAUSTIVE = {"quick": False, "thorough": True}
 KEYNAME = {"L": "L", "M": "p:M"}      # M is kept on a second backend, reached through the facade by its prefix
 
 
+class Boom(Exception):
+    pass
+
+
 def gen_cases(rng, tier):
     cases = []
     n = 500 if tier == "quick" else 4000
@@ -35,7 +39,8 @@ def gen_cases(rng, tier):
             ttl = rng.choice([16, 32])
             tasks.append({"key": rng.choice(["L", "L", "L", "M"]), "ttl": ttl, "dur": rng.choice([0, 4, ttl - 2, ttl, ttl + 4, 3 * ttl]),
                           "wait": rng.random() < 0.75, "ci": rng.choice([0, 2]), "via": rng.choice(["lock", "locked", "locked_gen", "backend"]),
-                          "start": rng.choice([0, 0, 2, ttl])})
+                          "start": rng.choice([0, 0, 2, ttl]), "raise": rng.random() < 0.2,       # the guarded body ends with an exception
+                          "spell": rng.choice(["float", "float", "int", "timedelta", "str"])})
         cases.append({"tasks": tasks, "purge": rng.random() < 0.5, "foreign": rng.random() < 0.3,
                       "cancel": rng.choice([None, None, 0, 1]), "schedule": [rng.randrange(6) for _ in range(60)],
                       "conf": rng.choice(["", "", "&secret=s3", "&pickle_type=default", "&pickle_type=json"])})
@@ -94,7 +99,8 @@ def run_impl(case):
             async def worker(i, spec):
                 if spec["start"]:
                     await asyncio.sleep(spec["start"] * TICK)
-                ttl = spec["ttl"] * TICK
+                from harness.props.c02 import ttl_py
+                ttl = ttl_py(spec.get("spell", "float"), spec["ttl"]) if spec["via"] != "backend" else spec["ttl"] * TICK     # the facade accepts every TTL spelling
 
                 key = KEYNAME[spec["key"]]
 
@@ -104,6 +110,8 @@ def run_impl(case):
                         await asyncio.sleep(spec["dur"] * TICK)
                     finally:
                         events.append([key, "out", i, 0, True, drv.tick()])   # ... and is over (also when cancelled)
+                    if spec.get("raise"):
+                        raise Boom()
                     return "done"
                 try:
                     if spec["via"] == "locked":
@@ -120,6 +128,8 @@ def run_impl(case):
                         async with target.lock(key, ttl, wait=spec["wait"], check_interval=spec["ci"] * TICK):
                             await section()
                     outcomes[i] = "ok"
+                except Boom:
+                    outcomes[i] = "ok"        # the body's own exception reached the caller; the lock must have been released on the way
                 except LockedError:
                     outcomes[i] = "locked"
                 except asyncio.CancelledError:
